@@ -84,6 +84,9 @@ class G:
         return str(self.i(0, 9))
 
     def fmt(self):
+        if self.b(1, 4):
+            # the formats dialects treat as their DEFAULT (and therefore elide, add or special-case)
+            return self.pick(("%Y-%m-%d", "%Y-%m-%d %H:%M:%S", "%H:%M:%S", "%Y%m%d", "%Y-%m-%dT%H:%M:%S", "%Y-%m-%d %H:%M:%S.%f", "%m/%d/%Y"))
         n = self.i(1, 4)
         parts = [self.pick(FMT_PARTS)]
         for _ in range(n - 1):
